@@ -250,6 +250,13 @@ def gen_strip_text(rng):
     return "".join(rng.choice(alphabet) for _ in range(rng.randint(0, 14)))
 
 
+def gen_blank_text(rng):
+    """texts for `blank_comments`: strings, rich text markers, the three comment kinds, macro syntax inside comments"""
+    pieces = ['"', "'", "#", "\n", "a", " ", "/", "*", "-8<-", "->8-", "//", "/*", "*/", "-", "8", "<", ">", "${m}", "macro m [x]",
+              "\r", "b"]
+    return "".join(rng.choice(pieces) for _ in range(rng.randint(0, 16)))
+
+
 # ------------------------------------------------------------------ abstract projects and their spellings
 
 TASK_IDS = ["a", "b", "c", "box", "k", "t1", "t2", "w"]
@@ -440,11 +447,12 @@ def render_project(proj, opt):
             return ""
         r = rng.random()
         if r < 0.25:
-            return "  # " + rng.choice(["todo", "task x { }", "depends !a", "effort 99h", "it's", 'say "hi"', "}", "{ {", "50% $ done"])
+            return "  # " + rng.choice(["todo", "task x { }", "depends !a", "effort 99h", "it's", 'say "hi"', "}", "{ {", "50% $ done",
+                                       "macro eff [effort 99h]", "${eff}", "${nosuch 1 2}", "macro x [", "project q \"Q\" 2001-01-01 +1d"])
         if r < 0.35:
-            return "  // " + rng.choice(["note", "allocate nobody", "}"])
+            return "  // " + rng.choice(["note", "allocate nobody", "}", "${blk}", "macro blk [task z \"Z\" { }]"])
         if r < 0.42:
-            return "  /* " + rng.choice(["block", "task q \"Q\" { effort 1h }", "multi\n line"]) + " */"
+            return "  /* " + rng.choice(["block", "task q \"Q\" { effort 1h }", "multi\n line", "macro m [x\ny]", "${m}"]) + " */"
         return ""
 
     def nl():
